@@ -641,13 +641,17 @@ def frame_b(st, o, cb):
       expect=[f"{EV}#ensures[row = seq_num, time, the data values under their keys, the timestamps under ts_<key>]",
               f"{EV}#ensures[len(cache)+1 >= batch_size: table' = table ++ cache ++ [row] in one append, cache' = []; else table' = table, cache' = cache ++ [row], no client call]",
               f"{EV}#frame[document not modified; other streams' caches and tables, metadata and nodes untouched]"],
-      covers=["flush", "no flush", "flush creates the table", "first event of the stream", "ts-collision"])
+      covers=["flush", "no flush", "flush creates the table", "first event of the stream", "ts-collision", "event under a later descriptor of the stream"])
 def event(I):
     w = I.w
     st = install(I)
     keyset = w.choose(list(KEYSETS), "data keys")
     o, batch, cached, exists, cb = event_state(I, st, keyset)
-    doc = event_doc(w, "desc-a", KEYSETS[keyset])
+    via = w.choose(["desc-a", "desc-a2"], "the event's descriptor (first / a later descriptor of the stream)")
+    if via == "desc-a2":
+        call_method(I, o, "descriptor", desc_doc(w, "desc-a2", "a", list(KEYSETS[keyset]), "a2"))
+        w.cover("event under a later descriptor of the stream")
+    doc = event_doc(w, via, KEYSETS[keyset])
     snapshot = {k: (dict(v) if isinstance(v, dict) else v) for k, v in doc.items()}
     cache0 = segs_of(o._internal_data_cache["a"]) if cached != "absent" else []
     n0 = (cache0[0][2] if cache0 else 0)
@@ -656,7 +660,7 @@ def event(I):
     ncalls = len(st.calls)
     r = catch(I, I.getattr(o, "event"), doc)
     new = st.calls[ncalls:]
-    rp = {"replay": RP, "scenario": "event", "cached": cached, "exists": exists, "keyset": keyset}
+    rp = {"replay": RP, "scenario": "event", "cached": cached, "exists": exists, "keyset": keyset, "via": via}
     cache1 = segs_of(o._internal_data_cache.get("a"))
     table1 = st.rows.get(TA)
     ok = r[0] == "ok" and cache1 is not None
@@ -1047,12 +1051,12 @@ def stop_post(I, s, doc, r, new, nlogd):
             external = And(external, len(vals) >= 1 and all(x[2].get("fix_errors") is True for x in vals),
                            src.attrs["validated"] == (0 if s["ext"] == "validate fails" else len(vals)),
                            # the registration after validate is the last word on the node
-                           [c for c in new if c[0] in ("data_source_replaced",)][-1][2] is src)
+                           ([c for c in new if c[0] == "data_source_replaced"] or [(None, None, None)])[-1][2] is src)
         elif good:
             external = And(external, not [x for x in nlogd if x[0] == "validate"])
     um = [c for c in new if c[0] == "update_metadata"]
     root_meta = st.meta.get(("run-1",))
-    meta = (ok and len(um) == 1 and new[-1] is um[0] and um[0][1] == ("run-1",) and isinstance(root_meta, dict) and set(root_meta) == {"start", "stop"}
+    meta = (ok and len(um) == 1 and um[0][1] == ("run-1",) and isinstance(root_meta, dict) and set(root_meta) == {"start", "stop"}
             and um[0][2]["drop_revision"] is True and isinstance(um[0][2]["metadata"], dict) and um[0][2]["metadata"].get("stop") is doc)
     if meta:
         meta = And(val_eq(root_meta["stop"], doc), val_eq(root_meta["start"], s["start0"]))
@@ -1062,7 +1066,7 @@ def stop_post(I, s, doc, r, new, nlogd):
 @task("stop", PROP, functions=[ST, WID, WE, f"{Q}._update_data_source_for_node", GS],
       expect=[f"{ST}#ensures[every cached row is written: table'(s) = table(s) ++ cache(s), one append per non-empty cache, caches empty]",
               f"{ST}#ensures[every cached stream datum is consumed once, in one array node per data key; registered rows == rows + cached widths]",
-              f"{ST}#ensures[stop metadata: the last call merges {{stop: the stop document}} into the run's metadata, start kept]",
+              f"{ST}#ensures[stop metadata: exactly one update merges {{stop: the stop document}} into the run's metadata, start kept]",
               f"{ST}#frame[stop document not modified; only nodes of this run are touched]"],
       covers=["ext: " + e for e in EXT_CASES] + ["cache(a) non-empty, table missing", "cache(a) non-empty, table exists", "nothing cached"])
 def stop(I):
@@ -1087,7 +1091,7 @@ def stop(I):
     internal, external, meta = stop_post(I, s, doc, r, new, nlogd)
     w.check(f"{ST}#ensures[every cached row is written: table'(s) = table(s) ++ cache(s), one append per non-empty cache, caches empty]", internal, rp)
     w.check(f"{ST}#ensures[every cached stream datum is consumed once, in one array node per data key; registered rows == rows + cached widths]", external, rp)
-    w.check(f"{ST}#ensures[stop metadata: the last call merges {{stop: the stop document}} into the run's metadata, start kept]", meta, rp)
+    w.check(f"{ST}#ensures[stop metadata: exactly one update merges {{stop: the stop document}} into the run's metadata, start kept]", meta, rp)
     w.check(f"{ST}#frame[stop document not modified; only nodes of this run are touched]",
             And(list(doc) == list(snap), all(doc[k] is snap[k] for k in snap),
                 all((c[1][:1] == ("run-1",)) if isinstance(c[1], tuple) else True for c in new), list(st.kind)[:2] == [(), ("run-1",)],
